@@ -241,8 +241,11 @@ TableEst(t, cf) ==
                                 LET e == EstSeq(cell.c, cf) IN
                                 [colno |-> a.colno + cell.colspan,
                                  v |-> [i \in 1..Len(a.v) |->
+                                          \* (the remainder of the division goes to the first columns of the span)
                                           IF i > a.colno /\ i <= a.colno + cell.colspan
-                                          THEN E3(a.v[i].size + e.size \div cell.colspan, Max2(a.v[i].minw, e.minw \div cell.colspan))
+                                          THEN LET k == i - a.colno - 1 IN
+                                               E3(a.v[i].size + e.size \div cell.colspan + (IF k < e.size % cell.colspan THEN 1 ELSE 0),
+                                                  Max2(a.v[i].minw, e.minw \div cell.colspan + (IF k < e.minw % cell.colspan THEN 1 ELSE 0)))
                                           ELSE a.v[i]]],
                               [colno |-> 0, v |-> acc], row.c).v,
                      [i \in 1..t.ncols |-> EZ], t.c)
